@@ -416,7 +416,7 @@ def lookup3(reg):
 
     # ---------------------------------------------------------------- _vlookup
     trows = ('all(is_list(table_array[i]) and len(table_array[i]) >= I(col_index_num) and (is_int(table_array[i][0]) or '
-             'is_float(table_array[i][0]) or is_str(table_array[i][0]) or is_bool(table_array[i][0])) '
+             'is_float(table_array[i][0]) or is_str(table_array[i][0]) or is_bool(table_array[i][0]) or is_empty(table_array[i][0])) '
              'for i in range(len(table_array)))')
     VG = 'vgate(table_array[{i}][0], lookup_value)'
     vhit = '(' + VG + ' and pyeq(table_array[{i}][0], lookup_value))'
@@ -460,15 +460,17 @@ def lookup3(reg):
 
 
 def vgate_z(x, v):
-    """VLOOKUP's gate: a key takes part when it is of the lookup value's kind; numbers of either type are one kind"""
+    """VLOOKUP's gate: a key takes part when it is not blank and of the lookup value's kind; numbers of either type are one kind"""
     z3, S = z(), T()
     x, v = _toV(x), _toV(v)
     numv = z3.Or(S.is_('Int', v), S.is_('Float', v))
     numx = z3.Or(S.is_('Int', x), S.is_('Float', x), S.is_('Bool', x))
-    return z3.If(numv, numx, z3.And(S.is_('Str', v), S.is_('Str', x)))
+    return z3.And(z3.Not(S.is_('Empty', x)), z3.If(numv, numx, z3.And(S.is_('Str', v), S.is_('Str', x))))
 
 
 def vgate_py(x, v):
+    if type(x).__name__ in ('EmptyCell', 'EmptyStandIn'):
+        return False
     if type(v) in (int, float):
         return isinstance(x, (int, float))
     return type(v) is str and isinstance(x, str)
